@@ -28,6 +28,10 @@ def who(tid, c):
         if tid == base:
             return "WSet"
         base += 1
+    if c.get("sync"):
+        if tid == base:
+            return "WSync"
+        base += 1
     return "WGor %d%%nat" % (tid - base)
 
 
@@ -44,13 +48,14 @@ def zl(xs):
 
 def case_to_coq(c):
     inb = core.coq_list([("EData " + zl(e)) if e else "EClose" for e in c["inb"]])
-    scr = core.coq_list(["(%d%%nat, %s)" % (k, "true" if cl else "false") for (k, cl) in (c.get("script") or [])])
+    scr = core.coq_list(["(%d%%nat, %d%%nat)" % (k, cl) for (k, cl) in (c.get("script") or [])])
+    sy = core.coq_list(["%d%%nat" % k for k in (c.get("sync") or [])])
     sch = core.coq_list([who(s["tid"], c) for s in c["steps"]])
     evs = core.coq_list([event(s["ev"]) for s in c["steps"]])
     offers = core.coq_list([zl(o) for o in (c["offers"] or [])])
-    return ("{| s_cb0 := %s; s_inb := %s; s_ncl := %d%%nat; s_script := %s; s_sched := %s; s_events := %s; "
+    return ("{| s_cb0 := %s; s_inb := %s; s_ncl := %d%%nat; s_script := %s; s_sy := %s; s_sched := %s; s_events := %s; "
             "s_offers := %s; s_consumed := %s; s_final := %s; s_recv := %s; s_pend := %s; s_finished := %s |}"
-            % ("true" if c["cb0"] else "false", inb, c["ncl"], scr, sch, evs, offers, zl(c["consumed"]),
+            % ("true" if c["cb0"] else "false", inb, c["ncl"], scr, sy, sch, evs, offers, zl(c["consumed"]),
                zl(c["final"]), zl(c["recv"]), zl(c["pend"]), "true" if c.get("finished") else "false"))
 
 
@@ -108,7 +113,7 @@ def run_harness(test, files_prop, n, seed, tag, extra_env=None):
 
 
 def brief(c):
-    return {k: c.get(k) for k in ("id", "strat", "kind", "cb0", "inb", "ncl", "setter", "script", "offers", "consumed",
+    return {k: c.get(k) for k in ("id", "strat", "kind", "cb0", "inb", "ncl", "setter", "sync", "script", "offers", "consumed",
                                   "final", "recv", "pend", "finished")} | {"schedule": [s["tid"] for s in (c.get("steps") or [])]}
 
 
